@@ -32,6 +32,7 @@ CHUNK = 2
 SUB_CHUNK = 2
 STATE_TIMEOUT = 900.0
 N_SHARDS = 48
+N_SHARDS_THOROUGH = 960
 
 
 def warmup():
@@ -41,19 +42,29 @@ def warmup():
 
 # ------------------------------------------------------------------ corpus
 
+_CORPUS = {}
+
+
 def corpus():
+    t = bootstrap.tier()
+    if t not in _CORPUS:
+        _CORPUS[t] = _corpus(t == "thorough")
+    return _CORPUS[t]
+
+
+def _corpus(thorough):
     C = []
     # support functions and AABBs: all types x sizes x 8 orientations x 2 offsets x 6 directions
     for t in sc.TYPES:
         for s in range(sc.n_sizes(t)):
-            for o in (0, 5, 24, 28, 31):
-                for f in (0, 2):
+            for o in (range(len(sc.ROTS)) if thorough else (0, 5, 24, 28, 31)):
+                for f in (range(len(sc.OFFSETS)) if thorough else (0, 2)):
                     for m in (0, 1):
                         C.append({"k": "collider", "t": t, "s": s, "o": o, "f": f, "m": m})
     # narrow phase: deviation-1 scene lattice of all type pairs (identity offsets)
     for ta, tb in itertools.product(sc.TYPES, sc.TYPES):
         for d in gs.enumerate_pair(ta, tb, 1):
-            if d["u"] in (0, 1, 7, 20, 28) and d["oa"] in (0, 5, 24, 28) and d["ob"] in (0, 9, 26) and d["sa"] in (0, 1, 2) and d["sb"] in (0, 1, 3):
+            if thorough or (d["u"] in (0, 1, 7, 20, 28) and d["oa"] in (0, 5, 24, 28) and d["ob"] in (0, 9, 26) and d["sa"] in (0, 1, 2) and d["sb"] in (0, 1, 3)):
                 d["k"] = "scene"
                 C.append(d)
         for pl in (16, 17):
@@ -61,21 +72,29 @@ def corpus():
             d.update({n: 0 for n in gs.COORDS})
             d["pl"] = pl
             C.append(d)
+        if thorough:
+            # pairs of deviations over a reduced alphabet (orientation x placement x direction x size)
+            from . import c01
+            alph = dict(c01.RED, pl=[0, 1, 3, 5, 7, 9, 10, 13, 14], u=[0, 1, 10, 20, 28])
+            for d in gs.enumerate_custom(ta, tb, alph, 2):
+                if sum(1 for n in gs.COORDS if d[n] != 0) == 2:
+                    d["k"] = "scene"
+                    C.append(d)
     # primitive distance functions: every function x every first primitive (all second primitives inside)
-    for st in ps.enumerate_states(ps.all_names(), shifts=False):
+    for st in ps.enumerate_states(ps.all_names(), shifts=thorough):
         st["k"] = "prim"
         C.append(st)
     # containment predicates
     for t, sizes in (("sphere", [0]), ("capsule", [0]), ("ellipsoid", [0, 3]), ("disk", [0]), ("cone", [0]), ("cylinder", [0]), ("box", [0, 3]), ("mesh", [0, 6])):
         for s in sizes:
-            for o in (0, 5, 24, 28):
+            for o in (range(len(sc.ROTS)) if thorough else (0, 5, 24, 28)):
                 C.append({"k": "contain", "t": t, "s": s, "o": o, "f": 3})
     # simplex solvers: lattice multisets (every 7th), all orderings
     from . import c18
     v1 = (-1, 0, 1)
     for k in (1, 2, 3, 4):
         for i, ms in enumerate(c18._multisets(v1, k)):
-            if k < 4 or i % 9 == 0:
+            if k < 4 or i % 9 == 0 or thorough:
                 C.append({"k": "simplex", "n": k, "pts": [list(p) for p in ms]})
     # AABB tree histories incl. the empty tree
     from . import c05
@@ -83,28 +102,35 @@ def corpus():
     for first in range(n):
         for bs in ("std", "flat"):
             C.append({"k": "tree", "first": first, "boxes": bs})
+    if thorough:
+        for first in range(len(c05.alphabet("full5"))):
+            C.append({"k": "tree", "first": first, "boxes": "std", "alphabet": "full5", "depth": 2})
     # tetrahedron pairs and hydroelastic body pairs, mesh factories
     from . import c15, c17
     for name in c15.TETS:
-        for r in (0, 3, 7, 12, 20, 24):
+        for r in (range(sc.N_CUBE + 2) if thorough else (0, 3, 7, 12, 20, 24)):
             C.append({"k": "tets", "tet": name, "rot": r})
     from .. import hydro
     for fa, fb in itertools.product(hydro.FACTORIES, hydro.FACTORIES):
         for pl in (0, 2, 4):
             C.append({"k": "bodies", "a": fa, "b": fb, "pl": pl, "ob": 5 if pl == 2 else 0, "g": 0})
-    for st in c17.enumerate_states("quick", 0)[0][::4]:
+        if thorough:
+            for pl, ob in ((0, 24), (1, 0), (1, 26), (2, 0), (3, 0), (3, 5), (5, 0)):
+                C.append({"k": "bodies", "a": fa, "b": fb, "pl": pl, "ob": ob, "g": 0})
+    for st in c17.enumerate_states("quick", 0)[0][::(1 if thorough else 4)]:
         C.append({"k": "mesh", "f": st["f"], "p": st["p"]})
     # degenerate narrow-phase family of C19 (exact touching, coincident, zero-volume, needles): exception types and finiteness
     from . import c19
     for i, st in enumerate(c19.enumerate_states("quick", 0)[0]):
-        if st["op"] == 0 and (i % 7 == 0 or st["pl"] in (1, 8)) and (i % 3 == 0):
+        if st["op"] == 0 and ((i % 7 == 0 or st["pl"] in (1, 8)) and (i % 3 == 0) or thorough):
             C.append({"k": "degenerate", "a": st["a"], "b": st["b"], "pl": st["pl"], "op": st["op"]})
     return C
 
 
 def shards():
     C = corpus()
-    return [{"shard": i, "n": N_SHARDS} for i in range(N_SHARDS)], C
+    n = N_SHARDS_THOROUGH if bootstrap.tier() == "thorough" else N_SHARDS
+    return [{"shard": i, "n": n} for i in range(n)], C
 
 
 def enumerate_states(tier, seed):
@@ -284,7 +310,7 @@ def tree_observations(call):
     from distance3d.aabb_tree import AabbTree
     c05._ACTIVE[0] = call["boxes"]
     c05._REF_TREES = None
-    alpha = c05.alphabet("red4")
+    alpha = c05.alphabet(call.get("alphabet", "red4"))
     obs = []
     hists = [[alpha[call["first"]]]] + [[alpha[call["first"]], op] for op in alpha]
     empty = AabbTree()
